@@ -553,6 +553,19 @@ class SoftUpdateReal(Case):
         require(agent, "tau")
         T.SHADOW.clear()
         gen = torch.Generator().manual_seed(11)
+        if self.variant == "second-step":
+            # an earlier soft update has already happened (concrete tau, real arithmetic): the step under test is the
+            # SECOND consecutive one on the same agent
+            with torch.no_grad():
+                for name, net, tgt in pairs:
+                    for p in net.parameters():
+                        p.add_(torch.randint(1, 4, p.shape, generator=gen).to(p.dtype) / 4)
+            with patched((agent, "tau", 0.25)):
+                if self.algo in ("DQN", "CQN", "RainbowDQN"):
+                    soft(None, None)
+                else:
+                    for name, net, tgt in pairs:
+                        soft(net, tgt)
         before = {}
         with torch.no_grad():
             for name, net, tgt in pairs:
@@ -597,9 +610,14 @@ def cases(tier):
     cs = [QLearn("DQN", False), QLearn("DQN", True), QLearn("CQN", False), QLearn("CQN", True),
           ACLearn("DDPG"), ACLearn("TD3"), ACLearn("TD3", B=1, freq=3), MALearn("MADDPG"), MALearn("MATD3")]
     cs += [SoftUpdateReal(a) for a in ("DQN", "CQN", "RainbowDQN", "DDPG", "TD3", "MADDPG", "MATD3")]
-    cs += [SoftUpdateReal("DQN", "clone"), SoftUpdateReal("TD3", "clone")]
+    cs += [SoftUpdateReal("DQN", "clone"), SoftUpdateReal("TD3", "clone"), SoftUpdateReal("DQN", "second-step"), SoftUpdateReal("CQN", "second-step"),
+           SoftUpdateReal("RainbowDQN", "second-step"), SoftUpdateReal("DDPG", "second-step")]
+    # Rainbow's learn(): which batch, done flag and discount feed the 1-step / n-step losses (harness shared with C18)
+    from .c18_rainbow import RainbowLearn
+    cs += [RainbowLearn(2, 0, 1, per=False, nstep=True, combined=True), RainbowLearn(2, 0, 1, per=True, nstep=True, combined=False)]
     if tier == "thorough":
         cs += [QLearn("DQN", True, B=3, A=3), QLearn("CQN", False, B=3, A=3), ACLearn("DDPG", B=3, freq=1), ACLearn("TD3", B=3, freq=2),
                MALearn("MADDPG", B=2, N=3), MALearn("MATD3", B=2, N=3, freq=3)]
         cs += [SoftUpdateReal(a, "clone") for a in ("CQN", "RainbowDQN", "DDPG", "MADDPG", "MATD3")]
+        cs += [SoftUpdateReal(a, "second-step") for a in ("TD3", "MADDPG", "MATD3")]
     return cs
